@@ -1036,6 +1036,7 @@ class Enum(Generic, PrimitiveType):
   ) -> 'Enum':
     # NOTE: `default` is a required argument of `Enum.__init__`, while it is
     # omitted by `to_json` when the Enum has no default value.
+    json_value = dict(json_value)
     json_value.setdefault('default', MISSING_VALUE)
     return super().from_json(json_value, **kwargs)
 
